@@ -489,6 +489,7 @@ def run(ctx, replay=None):
     timed("check_api", check_api, ctx, groups, *api_out)
     TIMES["search_total"] = round(time.time() - t0, 1)
     ctx.coverage["wall_breakdown_s"] = TIMES
+    cleanup()
     C.gate_violation(ctx)
     return ctx.finish("proof")
 
@@ -501,6 +502,17 @@ def timed(name, f, *a):
     r = f(*a)
     TIMES[name] = round(time.time() - t0, 1)
     return r
+
+
+def cleanup():
+    d = os.path.join(C.WORK, "impl")
+    if os.path.isdir(d):
+        for f in os.listdir(d):
+            if f.startswith("c04_") and ("_%d_" % os.getpid()) in f:
+                try:
+                    os.remove(os.path.join(d, f))
+                except OSError:
+                    pass
 
 
 def eval_model(state_cases):
@@ -606,17 +618,18 @@ def check_big(ctx, big_cases, results, deaths):
 
 
 def run_api_stage(ctx, groups):
-    # one child per (NUMBA_NUM_THREADS, vectorizer): numba compilation (10-25 s per vectorizer) dominates
+    """One child per vectorizer (numba compilation, 10-25 s per vectorizer, dominates).  Thorough tier: one child per
+    (NUMBA_NUM_THREADS, vectorizer), the pool size set through the environment.  Quick tier: one child per vectorizer
+    started with NUMBA_NUM_THREADS=16, the pool size of each case set with numba.set_num_threads (same thread pool
+    semantics, a third of the compilations)."""
     jobs = []
     kinds = ("token", "timed", "multi", "ngram")
+    per_kind = {k: ([], []) for k in kinds}
     for nnt in NNT:
-        # quick tier: the full matrix under NUMBA_NUM_THREADS=4 (one child per vectorizer), a thinned one in a single
-        # child under the two other pool sizes; thorough tier: one child per (pool size, vectorizer)
-        parts = [(k,) for k in kinds] if (nnt == "4" or not ctx.quick) else [kinds]
-        for part in parts:
-            cases, index = [], []
+        for kind in kinds:
+            cases, index = ([], []) if not ctx.quick else per_kind[kind]
             for gi, g in enumerate(groups):
-                if g["kind"] not in part:
+                if g["kind"] != kind:
                     continue
                 vs = g["variants"]
                 if nnt != "4":                       # the reference and every third variant under the other pool sizes
@@ -625,9 +638,16 @@ def run_api_stage(ctx, groups):
                     if ctx.quick and g["size"] == "large":
                         vs = vs[:2]
                 for v in vs:
-                    cases.append(api_case(g, v))
-                    index.append((gi, v))
-            jobs.append(("nnt%s_%s" % (nnt, "_".join(part)), {}, {"NUMBA_NUM_THREADS": nnt}, cases, index))
+                    c = api_case(g, v)
+                    if ctx.quick:
+                        c["set_threads"] = int(nnt)
+                    cases.append(c)
+                    index.append((gi, v, nnt))
+            if not ctx.quick:
+                jobs.append(("nnt%s_%s" % (nnt, kind), {}, {"NUMBA_NUM_THREADS": nnt}, cases, index))
+    if ctx.quick:
+        for kind in kinds:
+            jobs.append(("nnt_%s" % kind, {}, {"NUMBA_NUM_THREADS": "16"}, per_kind[kind][0], per_kind[kind][1]))
     specs = {}
 
     def all_specs():
@@ -646,9 +666,8 @@ def check_api(ctx, groups, jobs, results, deaths, specs):
     n_cmp, n_ref, n_shrunk = 0, 0, 0
     events_hist = {}
     for (tag, _, env, cases, index) in jobs:
-        nnt = env["NUMBA_NUM_THREADS"]
         ref = {}
-        for i, ((gi, v), case) in enumerate(zip(index, cases)):
+        for i, ((gi, v, nnt), case) in enumerate(zip(index, cases)):
             g = groups[gi]
             if gi not in specs:
                 docs, fit = corpora_of(g)
@@ -691,10 +710,10 @@ def check_api(ctx, groups, jobs, results, deaths, specs):
                             "expected_total": sum(e2.values())}, found_input=True)
                 continue
             if v == (1, None):
-                ref[gi] = got
-            elif gi in ref:
+                ref[(gi, nnt)] = got
+            elif (gi, nnt) in ref:
                 n_ref += 1
-                nb, sm = diff_dicts(ref[gi], got)
+                nb, sm = diff_dicts(ref[(gi, nnt)], got)
                 if nb:
                     ctx.report("%s matrix with n_threads=%s, coo_initial_memory=%s differs from the n_threads=1/default-memory run: %s"
                                % (g["kind"], v[0], v[1], sm), replay, found_input=True)
@@ -727,7 +746,7 @@ def run_replay(ctx, replay):
         if (c["n_threads"], c["mem"]) == (1, None):
             g["variants"] = [(1, None)]
         cases = [api_case(g, v) for v in g["variants"]]
-        index = [(0, v) for v in g["variants"]]
+        index = [(0, v, nnt) for v in g["variants"]]
         results, deaths = run_children("api", [("nnt" + nnt, {}, {"NUMBA_NUM_THREADS": nnt}, cases)], ctx, "api")
         check_api(ctx, [g], [("nnt" + nnt, {}, {"NUMBA_NUM_THREADS": nnt}, cases, index)], results, deaths, {})
     else:
